@@ -11,6 +11,7 @@ var ghostClockReads int
 // upper bound of the clock stub (BMC harnesses use a small range: only the order of clock values and
 // lifetimes matters there; the full 64-bit range is covered by the sequential C04/C07 harnesses)
 var ghostClockMax int64 = 1 << 62
+var ghostNoReadCount bool
 
 // The wall clock is an arbitrary non-decreasing value at every read ("free" clock model):
 // 1 <= now < 2^62.  A clock that steps backwards is outside the claim.
@@ -22,6 +23,8 @@ func verifHook_nowUnix() int64 {
 	verifAssume(n >= 1)
 	verifAssume(n < ghostClockMax)
 	ghostClock = n
-	ghostClockReads++
+	if !ghostNoReadCount {
+		ghostClockReads++
+	}
 	return n
 }
